@@ -153,7 +153,10 @@ def plan(case, wide=False):
     ref = r_ref(r)
     w = r_with(c)
     fam, ctx = c["fam"], c["ctx"]
-    cand = sorted(set(case.get("cand") or []) | (set(all_origins(c)) if wide or "cand" not in case else set()))
+    cand = set(case.get("cand") or []) | (set(all_origins(c)) if wide or "cand" not in case else set())
+    if r["k"] == 0 and (c["cte"] or any(i["d"] for i in c["ob"]["from"])):
+        cand |= set(shape(case)["body_named"])        # columns of that name hidden inside derived-table / CTE bodies
+    cand = sorted(cand)
     if not cand:
         cand = [99]
     st = []
@@ -503,6 +506,9 @@ def shape(case):
             if captured:
                 f["level"] = li
                 f["den"] = [o for _, o in m]
+                f["den_derived"] = bool(m) and all(l[ii]["derived"] for ii, _ in m)
+                mine = {ii for ii, _ in m}
+                f["other_items_named"] = sorted({o for ii, i in enumerate(l) if ii not in mine for n, o in i["cols"] if nm(n) == nm(r["n"])})
                 f["strict"] = ("qual_no_column" if not m else "ok" if len(m) == 1 else "ambig_items" if len({ii for ii, _ in m}) >= 2 else "ambig_dup_derived")
                 break
         if c["ib"]:
@@ -534,7 +540,8 @@ K_INQUAL = "C01/nameres-in-subquery-correlated-qualifier-ignored"
 K_PRUNE = "C01/nameres-unqualified-outer-reference-column-pruned"
 K_ONLATER = "C01/nameres-on-clause-sees-later-from-item"
 K_LEAK = "C01/nameres-derived-table-body-columns-leak"
-KNOWN_IDS = [K_DUPFROM, K_AMBIG, K_QUAL, K_QSTAR, K_DUPOUT, K_UNKSUB, K_CASE, K_CTESUB, K_INQUAL, K_PRUNE, K_ONLATER, K_LEAK]
+K_DERQUAL = "C01/nameres-derived-table-reference-binds-other-item"
+KNOWN_IDS = [K_DUPFROM, K_AMBIG, K_QUAL, K_QSTAR, K_DUPOUT, K_UNKSUB, K_CASE, K_CTESUB, K_INQUAL, K_PRUNE, K_ONLATER, K_LEAK, K_DERQUAL]
 
 
 def known_class(case, kind, obs, why):
@@ -567,6 +574,10 @@ def known_class(case, kind, obs, why):
         return K_AMBIG
     if f["fam"] == "group" and "sel_ambiguous" in fl and ERR in (case.get("out") or []) and within(named | set(all_origins(case["c"]))):
         return K_AMBIG
+    # the predicate over a derived table's output column is evaluated INSIDE the body, by name: it binds the body's own column of that name
+    if f["strict"] in ("ok", "ambig_dup_derived") and f.get("den_derived") and f["ctx"] == 2 and not f["sub"] and seen <= (set(f["body_named"]) - set(f["den"])) \
+            and (set(f["body_named"]) - set(f["den"])):
+        return K_LEAK
     if f["strict"] == "ambig_dup_derived" and within(set(f["den"])):
         return K_DUPOUT
     if "dup_output_names" in fl and f["ctx"] == 6 and within(named):
@@ -575,6 +586,8 @@ def known_class(case, kind, obs, why):
         return K_ONLATER
     if f["strict"] in ("unknown", "qual_no_column") and f["ctx"] in (2, 3, 5, 6) and seen and not (seen & named) and seen <= set(f["body_named"]):
         return K_LEAK
+    if f["strict"] == "ok" and f.get("den_derived") and not f["sub"] and seen and seen <= set(f["other_items_named"]):
+        return K_DERQUAL
     if f["qualified"] and f["strict"] in ("unknown", "qual_no_column") and f["ctx"] in (2, 3, 5, 6) and within(named):
         return K_QUAL
     if not f["qualified"] and f["strict"] == "unknown" and f["sub"] and f["ctx"] == 2 and not seen:
